@@ -140,6 +140,35 @@ pub fn run_one(run: u64, seed: u64) -> RunOut {
                 }
             }
         }
+        // a burst of concurrent connect requests, more than the listening side's connect_queue admits at once;
+        // those that got as far as a pending `Connect` are dropped later with everything else, the others (still
+        // waiting for a connect credit or a local port) are dropped right away
+        if rng.chance(40) {
+            let k = cfg_b.connect_queue as usize + 1 + rng.usize_below(3);
+            let started: std::sync::Arc<std::sync::Mutex<Vec<chmux::Connect>>> = Default::default();
+            let mut tasks = Vec::new();
+            for _ in 0..k {
+                let c = client_a.clone();
+                let st = started.clone();
+                tasks.push(crate::sched::spawn(async move {
+                    if let Ok(conn) = c.connect_ext(None, true).await {
+                        st.lock().unwrap().push(conn);
+                    }
+                    crate::simnet::bump_progress();
+                }));
+            }
+            settle().await;
+            for t in tasks {
+                t.abort();
+                let _ = t.await;
+            }
+            let got: Vec<chmux::Connect> = std::mem::take(&mut *started.lock().unwrap());
+            out.count("burst_connects_started", k as u64);
+            out.count("burst_connects_pending", got.len() as u64);
+            for c in got {
+                objs.push(('A', Obj::Connect(c)));
+            }
+        }
         for _ in 0..rng.below(3) {
             objs.push(('A', Obj::Client(client_a.clone())));
             objs.push(('B', Obj::Client(client_b.clone())));
